@@ -454,7 +454,7 @@ void verif::verif_case(Rng & rng, long idx, const std::string & tier) {
     if (O >= 4) { h = std::min(h, 2u); S = std::min<size_t>(S, 3); }
     bool ugly = rng.coin(1, 5), sparse = rng.coin(1, 5);
     // LinearSupport enumerates polytope vertices naively: keep its instances small (its cost is not this property's subject)
-    if (which == 2) { if (ugly) { S = std::min<size_t>(S, 3); h = std::min(h, 2u); } else if (S == 4) h = std::min(h, 3u); }
+    if (which == 2) { if (ugly) { S = std::min<size_t>(S, 3); h = std::min(h, 2u); } else if (S == 4) h = std::min(h, (O >= 3 && A >= 2) ? 2u : 3u); }   // S=4, A=3, O=3, h=3 took > 120 s under ASan (thorough seed 1 case 20370)
     auto pt = ugly ? uglyPomdp(rng, S, A, O) : randomPomdp(rng, S, A, O);
     if (ugly) std::printf("#stat ugly 1\n");
     double tol = (rng.coin(1, 8)) ? 0.5 : 0.0;                                // early stop on tolerance: shorter value function
